@@ -57,7 +57,14 @@ pub fn compare_ctor<I: Inputs>(
         _ => "accepted-plain",
     };
     let actual = no_panic(|| f(raw.clone()));
-    let sig = |w: &str, extra: String| format!("{prop}|{}|{what}|{w}|sans={}|vals={}{extra}", I::NAME, san_names(m), val_names(m));
+    let sig = |w: &str, extra: String| {
+        if prop == "C02" {
+            // C02 signatures name the spelling / layout class, not the inner type
+            format!("C02|{what}|{w}|vals={}{extra}", val_names(m))
+        } else {
+            format!("{prop}|{}|{what}|{w}|sans={}|vals={}{extra}", I::NAME, san_names(m), val_names(m))
+        }
+    };
     match actual {
         Err(p) => Outcome::fail(nontrivial, class, sig("panic", String::new()), show_res(&expected), format!("panic: {}", p.lines().next().unwrap_or(""))),
         Ok(actual) => match (&expected, &actual) {
